@@ -93,6 +93,8 @@ type Recorder struct {
 	// is kept in memory and written out by a watcher only if it has been executing for
 	// more than 100 ms, which is all a hang needs.  Distinct-by-construction enumerators
 	// count non-trivial cases instead of storing one hash each.
+	smallest []byte // smallest non-trivial (else any) case seen: the fallback sample
+	smallNT  bool
 	lazy     bool
 	noHashes bool
 	cur      atomic.Pointer[[]byte]
@@ -212,6 +214,9 @@ func (r *Recorder) ok(raw []byte, res Result) {
 	for _, l := range res.Labels {
 		r.sf.Labels[l]++
 	}
+	if r.smallest == nil || (res.NonTrivial && !r.smallNT) || (res.NonTrivial == r.smallNT && len(raw) < len(r.smallest)) {
+		r.smallest, r.smallNT = raw, res.NonTrivial
+	}
 	if res.NonTrivial && r.noHashes {
 		r.sf.DistinctBC++
 		r.sf.NonTrivial++
@@ -279,6 +284,15 @@ func (r *Recorder) Exhaustive(what string) {
 func (r *Recorder) flushLocked(done bool) {
 	r.lastFlush = time.Now()
 	r.sf.Done = done
+	if done && len(r.sf.Samples) == 0 && r.smallest != nil {
+		// every case was too big for the sample list: keep the smallest one, cut if huge
+		if len(r.smallest) <= 200_000 {
+			r.sf.Samples = append(r.sf.Samples, json.RawMessage(r.smallest))
+		} else {
+			cut, _ := json.Marshal(map[string]any{"case_bytes": len(r.smallest), "case_json_prefix": string(r.smallest[:4000])})
+			r.sf.Samples = append(r.sf.Samples, json.RawMessage(cut))
+		}
+	}
 	r.sf.Hashes = r.sf.Hashes[:0]
 	for h := range r.hashes {
 		r.sf.Hashes = append(r.sf.Hashes, h)
